@@ -139,6 +139,13 @@ impl AnchorContext {
     pub fn gen_table_name(&mut self) -> String {
         loop {
             let name = self.table_name.gen();
+            // verification hook: every name drawn from the table-name generator
+            #[cfg(prqlc_verif)]
+            log::debug!(
+                "verif:namegen-draw {}",
+                serde_json::json!({"site": "gen_table_name", "name": name.clone(),
+                    "accepted": !self.reserved_table_names.contains(&name.to_lowercase())})
+            );
             if !self.reserved_table_names.contains(&name.to_lowercase()) {
                 return name;
             }
